@@ -1,4 +1,5 @@
 import Dtr.Model.StmtIter
+import Dtr.Proofs.AsLiterals
 /-!
 # C17 — `random(n)` stays in range, draws once per evaluation, and `resetRandom` replays
 
@@ -183,5 +184,21 @@ theorem C17_as_literal (get : String → Option OutVal) (v : Int64) (g : Rng) :
 def exRng : Rng := { f := fun hist => Int64.ofNat (hist.length % 2) }
 example : evalG (fun _ => none) (.call "random" [.num 5]) exRng = .ok (1, { exRng with hist := [5], total := 1 }) := by
   simp [evalG, funcArity, Rng.draw, exRng]
+
+/-- **As if the drawn values had been written as literals.**  Let an evaluation of `e` succeed with value `v`,
+taking the generator from `g` to `g'`, and let `litG get e g` be `e` with every call of `random` that this
+evaluation performs replaced by the literal it drew (calls in the branch of an `ite` that is not taken are not
+performed and stay).  Then the substituted expression evaluates to the same `v` from *any* generator state and
+draws nothing; and the generator state behind the evaluation is the one the substitution computes. -/
+theorem C17_as_if_literals (get : String → Option OutVal) (e : Expr) (g g' : Rng) (v : Int64)
+    (h : evalG get e g = .ok (v, g')) :
+    (∀ g0 : Rng, evalG get (litG get e g).1 g0 = .ok (v, g0)) ∧ (litG get e g).2 = g' :=
+  ⟨(litG_spec get e g g' v h).2, (litG_spec get e g g' v h).1⟩
+
+/-- the substitution at work: `ite(0, random(5), 7 + random(3))` draws once, for the bound 3 (the generator of
+the example answers 1), and becomes `ite(0, random(5), 7 + 1)` -/
+example : (litG (fun _ => none) (.call "ite" [.num 0, .call "random" [.num 5], .bin .add (.num 7) (.call "random" [.num 3])]) exRng).1 =
+    .call "ite" [.num 0, .call "random" [.num 5], .bin .add (.num 7) (.num 1)] := by
+  simp [litG, evalG, funcArity, Rng.draw, exRng]
 
 end Dtr
